@@ -20,6 +20,9 @@
 (*           one shrinking or growing mutation that saves once, reload      *)
 (*   leftover_obs  something that is not a plain file at the temporary path *)
 (*           (observed only, never judged)                                  *)
+(*   loadplan / loadfault  a start-up (NewCache, then one Save) in a child   *)
+(*           whose openat / read of the intact cache file fails; then a     *)
+(*           fault-free NewCache on the directory                           *)
 (*   touch   the system calls that name the final path during a save       *)
 (*   unsafe  cache.NewCache on a cache file / directory of some kind, mode *)
 (*                                                                         *)
@@ -86,6 +89,17 @@ Crash2Violations ==
                    THEN {V("Inv_FileIsCompleteSnapshot", pre \o "file-is-not-the-snapshot-bytes", w)} ELSE {})
              \cup (IF E.tmp_left THEN {V("Act_OnlyRename", pre \o "temp-path-still-there-after-successful-save", w)} ELSE {})
 
+\* loadfault: a failed read of the cache file is not "no cache yet" (ReadFaultHandled, reported conjunct by conjunct)
+LoadSig(e, what) == "load-fault:" \o e.sys \o ":" \o e.errno \o ":" \o what
+LoadFaultViolations ==
+    IF ReadFaultHandled(E.started, E.started_equal, E.after_loaded, E.after_equal) THEN {}
+    ELSE (IF E.started /\ ~E.started_equal
+          THEN {V("Act_ReloadEqualsLastSave", LoadSig(E, "started-without-the-saved-cache"), Get(E, "child", ""))} ELSE {})
+         \cup (IF E.after_loaded THEN {} ELSE {V("Inv_FileIsCompleteSnapshot", LoadSig(E, "snapshot-no-longer-loads"), Get(E, "loaderr", ""))})
+         \cup (IF E.after_loaded /\ ~E.after_equal
+               THEN {V("Act_ReloadEqualsLastSave", LoadSig(E, IF E.after_empty THEN "snapshot-replaced-by-empty-cache" ELSE "snapshot-replaced"),
+                       Get(E, "child", ""))} ELSE {})
+
 \* crash: Inv_FileIsCompleteSnapshot at the instant of the fault
 CrashSig(e) == e.kind \o (IF e.sys # "" THEN "@" \o e.sys ELSE "") \o ":" \o (IF e.loaded THEN "neither-old-nor-new" ELSE "load-failed")
 CrashViolations ==
@@ -118,6 +132,9 @@ TrRt     == E.ev = "rt" /\ Step(RtViolations, {}, {})
 TrRt2    == E.ev = "rt2" /\ Step(Rt2Violations, {}, {})
 TrCrash2 == E.ev = "crash2" /\ Step(Crash2Violations, {}, {})
 TrObs    == E.ev = "leftover_obs" /\ Step({}, {}, {})
+TrLoadPlan  == E.ev = "loadplan" /\ Step({}, {<<E.snap, "load", p>> : p \in SetOf(E.points)}, {})
+TrLoadFault == E.ev = "loadfault" /\ Step(IF E.fired /\ E.matched THEN LoadFaultViolations ELSE {}, {},
+                                         IF E.fired /\ E.matched THEN {<<E.snap, "load", E.point>>} ELSE {})
 TrPlan   == E.ev = "plan" /\ Step({}, {<<E.snap, E.variant, p>> : p \in SetOf(E.points)}, {})
 TrCrash  == E.ev = "crash" /\ Step(IF E.fired /\ E.matched THEN CrashViolations ELSE {}, {},
                                    IF E.fired /\ E.matched THEN {<<E.snap, E.variant, E.point>>} ELSE {})
@@ -125,7 +142,7 @@ TrTouch  == E.ev = "touch" /\ Step(TouchViolations, {}, {})
 TrUnsafe == E.ev = "unsafe" /\ Step(UnsafeViolations, {}, {})
 \* a fresh NewCache (or the save) did not return: the file was not "loaded without error"
 TrHang   == E.ev = "hang" /\ Step(IF E.op = "roundtrip" THEN {V("Inv_FileIsCompleteSnapshot", "save-or-load-did-not-return", E.op)} ELSE {}, {}, {})
-TrOther  == E.ev \notin {"rt", "rt2", "crash2", "leftover_obs", "plan", "crash", "touch", "unsafe", "hang"} /\ Step({V("Trace", "unknown-event", E.ev)}, {}, {})
+TrOther  == E.ev \notin {"rt", "rt2", "crash2", "leftover_obs", "loadplan", "loadfault", "plan", "crash", "touch", "unsafe", "hang"} /\ Step({V("Trace", "unknown-event", E.ev)}, {}, {})
 
 Finish ==
     /\ l = N + 1 /\ ~done
@@ -137,7 +154,7 @@ Finish ==
     /\ done' = TRUE /\ UNCHANGED <<l, viols, planned, covered>>
 
 TraceInit == l = 1 /\ viols = <<>> /\ planned = {} /\ covered = {} /\ done = FALSE /\ TLCSet(3, -1)
-TraceNext == (l <= N /\ (TrRt \/ TrRt2 \/ TrCrash2 \/ TrObs \/ TrPlan \/ TrCrash \/ TrTouch \/ TrUnsafe \/ TrHang \/ TrOther)) \/ Finish
+TraceNext == (l <= N /\ (TrRt \/ TrRt2 \/ TrCrash2 \/ TrObs \/ TrLoadPlan \/ TrLoadFault \/ TrPlan \/ TrCrash \/ TrTouch \/ TrUnsafe \/ TrHang \/ TrOther)) \/ Finish
 TraceSpec == TraceInit /\ [][TraceNext]_tvars
 
 \* every enumerated fault point produced a record whose fault fired at the planned system call
